@@ -12,6 +12,10 @@ from . import runner, sut
 ROOT = runner.ROOT
 EVID = os.path.join(ROOT, "evidence")
 REPLAYS = os.path.join(ROOT, "replays")
+if os.path.realpath(os.environ.get("VERIF_REPO", "/repo")) != "/repo":
+    # runs against scratch (deliberately broken) copies must never overwrite the evidence of /repo itself
+    EVID = os.path.join(ROOT, ".work", "evidence-scratch")
+    REPLAYS = os.path.join(ROOT, ".work", "replays-scratch")
 KF_PATH = os.path.join(ROOT, "known_findings.json")
 ALL = [f"C{i:02d}" for i in range(1, 20)]
 
